@@ -155,8 +155,9 @@ func (l *langstring) Exit(key string, ctx *ParsingContext) (bool, error) {
 	return true, fmt.Errorf("rdf langstring cannot be exited")
 }
 
-// Apply sets the langstring value in the context as a referenced spec.
-func (l *langstring) Apply(key string, value interface{}, ctx *ParsingContext) (bool, error) {
+// markNaturalLanguageMaps flags every property of the vocabulary being parsed
+// whose range refers to rdf:langString as having a natural language map.
+func (l *langstring) markNaturalLanguageMaps(ctx *ParsingContext) {
 	for k, p := range ctx.Result.Vocab.Properties {
 		for i, ref := range p.Range {
 			if ref.Name == langstringSpec && ref.Vocab == l.alias {
@@ -167,6 +168,11 @@ func (l *langstring) Apply(key string, value interface{}, ctx *ParsingContext) (
 			}
 		}
 	}
+}
+
+// Apply sets the langstring value in the context as a referenced spec.
+func (l *langstring) Apply(key string, value interface{}, ctx *ParsingContext) (bool, error) {
+	l.markNaturalLanguageMaps(ctx)
 	u, e := url.Parse(rdfSpec + langstringSpec)
 	if e != nil {
 		return true, e
